@@ -11,6 +11,10 @@ import DDProofs.MddGcReach
 import DDProofs.MddFuel
 import DDProofs.MddConvFull
 import DDProofs.MddTotal
+import DDProofs.MddIteTotal
+import DDProofs.MddApplyTotal
+import DDProofs.MddGcSched
+import DDProofs.Reach2
 import DDProps.C07
 import DDProofs.Inv
 namespace DD
@@ -52,9 +56,38 @@ theorem C15_findOrAdd_spec (m : MddMgr) (h : MInv m) (i : Int) (nodes : List Int
   · have F := mFindOrAddCore_spec m h i.toNat nodes hlt r m' hr
     exact ⟨F.inv, F.ext, F.mem, F.den, fun u hu a => denM_ext F.ext h.wf.toMWF u a hu⟩
 
-/-- `ite(g, u, v)` is the pointwise if-then-else on every valid integer assignment, for every
-content of the computed table; old references keep their meaning -/
-theorem C15_ite_spec (m : MddMgr) (h : MInv m) (g u v : Int)
+/-- `find_or_add(i, *nodes)` RETURNS NORMALLY when its documented requirements hold — `i` a level
+of the manager, as many successors as the variable has values, all of them nodes of the manager
+strictly below level `i` —: neither its argument checks nor the allocator assertions can fail.
+The only other outcome of the MODEL is `MODEL-SCHEDULE-MISMATCH` (recorded `_free.pop()` that does
+not fit). -/
+theorem C15_findOrAdd_total (m : MddMgr) (h : MInv m) (i : Int) (nodes : List Int)
+    (hi0 : 0 ≤ i) (hi : i.toNat < m.tbl.nvars) (hlen : nodes.length = m.tbl.arity i.toNat)
+    (hne : nodes ≠ []) (hmem : ∀ k ∈ nodes, m.tbl.Mem k)
+    (hlt : ∀ k ∈ nodes, i.toNat < m.tbl.levelOf k) :
+    (∃ r m', mFindOrAdd i nodes m = (.ok r, m') ∧
+      MInv m' ∧ MExt m.tbl m'.tbl ∧ m'.tbl.Mem r ∧
+      (∀ a k, nodes[a i.toNat]? = some k → denM m'.tbl r a = denM m'.tbl k a) ∧
+      (∀ u, m.tbl.Mem u → ∀ a, denM m'.tbl u a = denM m.tbl u a)) ∨
+    (∃ m', mFindOrAdd i nodes m = (.error .sched, m') ∧ m.sched ≠ []) := by
+  have T := mFindOrAddCore_tot m h i.toNat nodes hi hlen hne hmem
+  have heq : mFindOrAdd i nodes m = mFindOrAddCore i.toNat nodes m := by
+    unfold mFindOrAdd
+    rw [if_neg (by omega)]
+  cases hres : mFindOrAddCore i.toNat nodes m with
+  | mk r m' =>
+    rw [hres] at T
+    cases r with
+    | error e =>
+      obtain ⟨he, hsn⟩ := T.err
+      subst he
+      exact Or.inr ⟨m', by rw [heq, hres], hsn⟩
+    | ok r =>
+      have hr : mFindOrAdd i nodes m = (.ok r, m') := by rw [heq, hres]
+      exact Or.inl ⟨r, m', hr, C15_findOrAdd_spec m h i nodes hlt r m' hr⟩
+
+/-- (conditional form, kept: whenever the call returns `w`, …) -/
+theorem C15_ite_ok (m : MddMgr) (h : MInv m) (g u v : Int)
     (mg : m.tbl.Mem g) (mu : m.tbl.Mem u) (mv : m.tbl.Mem v)
     (w : Int) (m' : MddMgr) (hr : mIte g u v m = (.ok w, m')) :
     MInv m' ∧ MExt m.tbl m'.tbl ∧ m'.tbl.Mem w ∧
@@ -64,9 +97,39 @@ theorem C15_ite_spec (m : MddMgr) (h : MInv m) (g u v : Int)
   have I := mIte_spec m h g u v mg mu mv w m' hr
   exact ⟨I.inv, I.ext, I.mem, I.den, fun x hx a => denM_ext I.ext h.wf.toMWF x a hx⟩
 
-/-- `apply(op, u, v, w)`: for every spelling `op` of a propositional connective `c` of the
-vocabulary, the result denotes `c` applied pointwise to the operands -/
-theorem C15_apply_spec (m : MddMgr) (h : MInv m) (op : String) (c : Conn) (hc : docConn op = some c)
+
+/-- `ite(g, u, v)` on nodes of a manager satisfying the invariant RETURNS NORMALLY — no assertion,
+no `KeyError`, no failed argument check of the inner `find_or_add` can occur, for every content of
+the computed table and every state of the free list —, and the result is the pointwise
+if-then-else on every valid integer assignment; old references keep their meaning.  The only other
+outcome of the MODEL is its own report `MODEL-SCHEDULE-MISMATCH`, possible only when a recorded
+`_free.pop()` result does not fit (not a behaviour of the code). -/
+theorem C15_ite_spec (m : MddMgr) (h : MInv m) (g u v : Int)
+    (mg : m.tbl.Mem g) (mu : m.tbl.Mem u) (mv : m.tbl.Mem v) :
+    (∃ w m', mIte g u v m = (.ok w, m') ∧
+      MInv m' ∧ MExt m.tbl m'.tbl ∧ m'.tbl.Mem w ∧
+      (∀ a, MValid m.tbl a →
+        denM m'.tbl w a = if denM m.tbl g a then denM m.tbl u a else denM m.tbl v a) ∧
+      (∀ x, m.tbl.Mem x → ∀ a, denM m'.tbl x a = denM m.tbl x a)) ∨
+    (∃ m', mIte g u v m = (.error .sched, m') ∧ m.sched ≠ []) := by
+  rcases mIte_okOrSched m h g u v mg mu mv with ⟨w, m', hr, I⟩ | hbad
+  · exact Or.inl ⟨w, m', hr, I.inv, I.ext, I.mem, I.den,
+      fun x hx a => denM_ext I.ext h.wf.toMWF x a hx⟩
+  · exact Or.inr hbad
+
+/-- with no recorded schedule `ite` is total -/
+theorem C15_ite_total (m : MddMgr) (h : MInv m) (hs : m.sched = []) (g u v : Int)
+    (mg : m.tbl.Mem g) (mu : m.tbl.Mem u) (mv : m.tbl.Mem v) :
+    ∃ w m', mIte g u v m = (.ok w, m') ∧
+      MInv m' ∧ MExt m.tbl m'.tbl ∧ m'.tbl.Mem w ∧ m'.sched = [] ∧
+      (∀ a, MValid m.tbl a →
+        denM m'.tbl w a = if denM m.tbl g a then denM m.tbl u a else denM m.tbl v a) ∧
+      (∀ x, m.tbl.Mem x → ∀ a, denM m'.tbl x a = denM m.tbl x a) := by
+  obtain ⟨w, m', hr, I, hs'⟩ := mIte_total m h hs g u v mg mu mv
+  exact ⟨w, m', hr, I.inv, I.ext, I.mem, hs', I.den, fun x hx a => denM_ext I.ext h.wf.toMWF x a hx⟩
+
+/-- (conditional form, kept) -/
+theorem C15_apply_ok (m : MddMgr) (h : MInv m) (op : String) (c : Conn) (hc : docConn op = some c)
     (u : Int) (v w : Option Int) (r : Int) (m' : MddMgr)
     (hr : mApply op u v w m = (.ok r, m')) :
     MInv m' ∧ MExt m.tbl m'.tbl ∧ m'.tbl.Mem r ∧
@@ -74,6 +137,37 @@ theorem C15_apply_spec (m : MddMgr) (h : MInv m) (op : String) (c : Conn) (hc : 
       denM m'.tbl r a = c.eval (denM m.tbl u a) (denO m.tbl v a) (denO m.tbl w a) := by
   have A := mApply_spec m h op c hc u v w r m' hr
   exact ⟨A.inv, A.ext, A.mem, A.den⟩
+
+/-- `apply(op, u, v, w)` RETURNS NORMALLY for every spelling `op` of a propositional connective `c`
+of the vocabulary (every alias of the regenerated table that is implemented: `not`, the binary
+connectives, `ite`), operands that are nodes of the manager, and exactly the operands the
+connective takes (`ArgsShape`: `v`/`w` given iff the arity asks for them); the result denotes `c`
+applied pointwise.  The only other outcome of the MODEL is `MODEL-SCHEDULE-MISMATCH` (recorded
+allocator schedule that does not fit). -/
+theorem C15_apply_spec (m : MddMgr) (h : MInv m) (op : String) (c : Conn) (hc : docConn op = some c)
+    (hprop : c ≠ .forall_ ∧ c ≠ .exists_)
+    (u : Int) (v w : Option Int) (hsh : ArgsShape c v w) (mu : m.tbl.Mem u)
+    (mv : ∀ x, v = some x → m.tbl.Mem x) (mw : ∀ x, w = some x → m.tbl.Mem x) :
+    (∃ r m', mApply op u v w m = (.ok r, m') ∧
+      MInv m' ∧ MExt m.tbl m'.tbl ∧ m'.tbl.Mem r ∧
+      ∀ a, MValid m.tbl a →
+        denM m'.tbl r a = c.eval (denM m.tbl u a) (denO m.tbl v a) (denO m.tbl w a)) ∨
+    (∃ m', mApply op u v w m = (.error .sched, m') ∧ m.sched ≠ []) := by
+  rcases mApply_okOrSched m h op c hc hprop u v w hsh mu mv mw with ⟨r, m', hr, A⟩ | hbad
+  · exact Or.inl ⟨r, m', hr, A.inv, A.ext, A.mem, A.den⟩
+  · exact Or.inr hbad
+
+/-- with no recorded schedule `apply` is total on the implemented connectives -/
+theorem C15_apply_total (m : MddMgr) (h : MInv m) (hs : m.sched = []) (op : String) (c : Conn)
+    (hc : docConn op = some c) (hprop : c ≠ .forall_ ∧ c ≠ .exists_)
+    (u : Int) (v w : Option Int) (hsh : ArgsShape c v w) (mu : m.tbl.Mem u)
+    (mv : ∀ x, v = some x → m.tbl.Mem x) (mw : ∀ x, w = some x → m.tbl.Mem x) :
+    ∃ r m', mApply op u v w m = (.ok r, m') ∧
+      MInv m' ∧ MExt m.tbl m'.tbl ∧ m'.tbl.Mem r ∧
+      ∀ a, MValid m.tbl a →
+        denM m'.tbl r a = c.eval (denM m.tbl u a) (denO m.tbl v a) (denO m.tbl w a) := by
+  obtain ⟨r, m', hr, A⟩ := mApply_total m h hs op c hc hprop u v w hsh mu mv mw
+  exact ⟨r, m', hr, A.inv, A.ext, A.mem, A.den⟩
 
 /-- the quantifier spellings never succeed and leave the manager untouched -/
 theorem C15_apply_quantifier (m : MddMgr) (op : String) (c : Conn) (hc : docConn op = some c)
@@ -133,10 +227,21 @@ holds, `ext`), the collection keeps the invariant and the counts exact, only rem
 (never creates or changes one), keeps every node the user holds, leaves — when called
 without `roots` — only nodes with a positive count, keeps the meaning of every surviving
 reference, and empties the computed table -/
-theorem C15_gc_spec (m : MddMgr) (ext : Nat → Nat) (h : MInv m) (hx : MRefExact m ext)
+theorem C15_gc_ok (m : MddMgr) (ext : Nat → Nat) (h : MInv m) (hx : MRefExact m ext)
     (roots : Option (List Int)) (m' : MddMgr) (hr : mCollectGarbage roots m = (.ok (), m')) :
     GcOK m ext roots.isNone m' :=
   mddGc_spec m ext h hx roots m' hr
+
+/-- `collect_garbage(roots)` RETURNS NORMALLY and does all of the above, when the counts are exact
+and the list it starts from (`roots`, references of EITHER sign; `self._ref` when `roots` is
+`None`) consists of nodes of the manager: none of the four assertions of the loop, the
+`_release` assertions, the `pop`s of `_succ` / `_pred` / `_ref` can fail, and the model's iteration
+bound suffices.  (For `roots = None` the hypothesis says the keys of `_ref` are nodes — true in
+every reachable state, `C15_gc_exact`.)  No allocator schedule is involved. -/
+theorem C15_gc_spec (m : MddMgr) (ext : Nat → Nat) (h : MInv m) (hx : MRefExact m ext)
+    (roots : Option (List Int)) (hro : ∀ r, r ∈ gcRootList m roots → m.tbl.Mem r) :
+    ∃ m', mCollectGarbage roots m = (.ok (), m') ∧ GcOK m ext roots.isNone m' :=
+  mCollectGarbage_total m ext h hx roots hro
 
 /-! ### `bdd_to_mdd` -/
 
@@ -223,7 +328,8 @@ assertions, dictionary lookups, `min()` of an empty set, `bits[0]`, `assert_cons
 `cofactor`, `umap[...]`, `find_or_add` argument checks can fail. -/
 theorem C15_bddToMdd_total (ext : Nat → Nat) (mb : Mgr) (h : ReorderInv ext mb)
     (hks : KeysShaped mb) (hs : mb.sched = []) (dvars : List MVar) (hd : DvarsFull mb.tbl dvars) :
-    ∃ out mb', bddToMdd dvars none mb = (.ok out, mb') ∧ B2MOK ext dvars mb out mb' :=
+    ∃ out mb', bddToMdd dvars none mb = (.ok out, mb') ∧ B2MOK ext dvars mb out mb' ∧
+      KeysShaped mb' ∧ mb'.sched = [] :=
   bddToMdd_total ext mb h hks hs dvars hd
 
 /-- the same for every recorded schedule of swaps and of `bdd.levels()`: the call returns normally
@@ -232,7 +338,7 @@ order that is not a permutation of the level sets — not a behaviour of the cod
 theorem C15_bddToMdd_anySchedule (ext : Nat → Nat) (mb : Mgr) (h : ReorderInv ext mb)
     (hks : KeysShaped mb) (dvars : List MVar) (hd : DvarsFull mb.tbl dvars)
     (lev : Option (List Nat)) :
-    OkOrSched (fun out mb' => B2MOK ext dvars mb out mb') (bddToMdd dvars lev mb) :=
+    OkOrSched (fun out mb' => B2MOK ext dvars mb out mb' ∧ KeysShaped mb') (bddToMdd dvars lev mb) :=
   bddToMdd_okOrSched ext mb h hks dvars hd lev
 
 /-- total form of `C15_bddToMdd_held`: the call returns, and every held reference `s` (either sign)
@@ -245,9 +351,93 @@ theorem C15_bddToMdd_held_total (ext : Nat → Nat) (mb : Mgr) (h : ReorderInv e
         ∃ r, out.umap.lookup s.natAbs = some r ∧ out.mdd.tbl.Mem r ∧
           ∀ α, MValid out.mdd.tbl α →
             denM out.mdd.tbl (flip r s) α = denN mb.tbl s (bitsOfInts dvars α) := by
-  obtain ⟨out, mb', hr, B⟩ := bddToMdd_total ext mb h hks hs dvars hd
+  obtain ⟨out, mb', hr, B, _, _⟩ := bddToMdd_total ext mb h hks hs dvars hd
   exact ⟨out, mb', hr, B.mdd, B.bdd, fun s hsx =>
     C15_bddToMdd_held ext mb h dvars hd.toDvarsOK none out mb' hr s hsx⟩
+
+/-- a held BDD reference of either sign denotes the same function in a manager that keeps the
+held nodes' functions -/
+theorem denN_held_signed (ext : Nat → Nat) (mb mb' : Mgr) (h : ReorderInv ext mb) (hI' : Inv mb')
+    (s : Int) (hs : 0 < ext s.natAbs)
+    (hheld : mb'.tbl.Mem ((s.natAbs : Nat) : Int) ∧
+      ∀ a, denN mb'.tbl ((s.natAbs : Nat) : Int) a = denN mb.tbl ((s.natAbs : Nat) : Int) a) :
+    ∀ a, denN mb'.tbl s a = denN mb.tbl s a := by
+  intro a
+  obtain ⟨hm', hsame⟩ := hheld
+  have hmem0 : mb.tbl.Mem ((s.natAbs : Nat) : Int) := h.held_mem hs
+  have hW := h.inv.wf.toWF
+  have hW' := hI'.wf.toWF
+  by_cases hneg : s < 0
+  · have hsu : s = -((s.natAbs : Nat) : Int) := by omega
+    rw [hsu]
+    unfold denN
+    rw [den_neg mb'.tbl hW' _ _ hm', den_neg mb.tbl hW _ _ hmem0]
+    have := hsame a
+    unfold denN at this
+    rw [this]
+  · have hsu : s = ((s.natAbs : Nat) : Int) := by omega
+    rw [hsu]
+    exact hsame _
+
+/-- C15, the conversion composes with the other operations.  Convert; take the image `r` of a held
+BDD reference `s`; `incref(r)`; `collect_garbage()`: every step RETURNS NORMALLY, the MDD manager
+is a reachable state again (so every theorem of this file applies to it), `flip(r, s)` is still a
+node and still denotes — on every valid integer assignment — the function `s` denoted in the BDD
+before the conversion, and exactly the nodes reachable from `r` remain.  And the BDD manager left
+by the conversion satisfies every hypothesis again: a SECOND conversion returns normally and maps
+`s` to a reference with the same meaning. -/
+theorem C15_convert_incref_collect (ext : Nat → Nat) (mb : Mgr) (h : ReorderInv ext mb)
+    (hks : KeysShaped mb) (hs : mb.sched = []) (dvars : List MVar) (hd : DvarsFull mb.tbl dvars)
+    (s : Int) (hheld : 0 < ext s.natAbs) :
+    ∃ out mb' r m1 m2,
+      bddToMdd dvars none mb = (.ok out, mb') ∧ out.umap.lookup s.natAbs = some r ∧
+      mIncref r out.mdd = (.ok (), m1) ∧ mCollectGarbage none m1 = (.ok (), m2) ∧
+      MReach dvars m2 (mExtInc (fun _ => 0) r) ∧
+      m2.tbl.Mem (flip r s) ∧
+      (∀ α, MValid m2.tbl α →
+        denM m2.tbl (flip r s) α = denN mb.tbl s (bitsOfInts dvars α)) ∧
+      (∀ x n, out.mdd.tbl.node? x = some n →
+        (m2.tbl.node? x = some n ↔ HeldReach out.mdd.tbl (mExtInc (fun _ => 0) r) x)) ∧
+      ∃ out2 mb'' r2, bddToMdd dvars none mb' = (.ok out2, mb'') ∧
+        out2.umap.lookup s.natAbs = some r2 ∧
+        ∀ α, MValid out2.mdd.tbl α →
+          denM out2.mdd.tbl (flip r2 s) α = denN mb.tbl s (bitsOfInts dvars α) := by
+  obtain ⟨out, mb', hr, B, hks', hs'⟩ := bddToMdd_total ext mb h hks hs dvars hd
+  obtain ⟨r, hlook, hmr, hden⟩ :=
+    C15_bddToMdd_held ext mb h dvars hd.toDvarsOK none out mb' hr s hheld
+  have hrc := (natmap_contains_iff out.mdd.ref r.natAbs).mp (B.mdd.refMem hmr)
+  obtain ⟨c, hc⟩ := Option.isSome_iff_exists.mp hrc
+  have hinc : mIncref r out.mdd =
+      (.ok (), { out.mdd with ref := out.mdd.ref.insert r.natAbs (c + 1) }) := by
+    unfold mIncref; rw [hc]
+  have R1 := MReach.incref r _ B.reach hmr hinc
+  obtain ⟨hi1, hx1, _⟩ := R1.inv
+  obtain ⟨m2, hgc, G⟩ := mCollectGarbage_total _ _ hi1 hx1 none
+    (gcRootList_mem _ R1.refKeys none (fun rs hrs => by cases hrs))
+  have R2 := MReach.gc none m2 R1 hgc
+  have hexact := fun x n hn => gc_exactly_reachable _ _ hi1 hx1 m2 hgc x n hn
+  have hmr2 : m2.tbl.Mem r := by
+    rcases hmr with h1 | h1
+    · exact Or.inl h1
+    · obtain ⟨n, hn⟩ := Option.isSome_iff_exists.mp h1
+      right
+      have := (hexact r.natAbs n hn).mpr (HeldReach.held r.natAbs n hn (by simp [mExtInc]))
+      rw [this]; rfl
+  have hmf : m2.tbl.Mem (flip r s) := by
+    unfold flip; split
+    · exact MTbl.mem_neg hmr2
+    · exact hmr2
+  obtain ⟨out2, mb'', hr2, B2, _, _⟩ :=
+    bddToMdd_total ext mb' B.reorder hks' hs' dvars (hd.transfer B.names)
+  obtain ⟨r2, hlook2, _, hden2⟩ := C15_bddToMdd_held ext mb' B.reorder dvars
+    (hd.transfer B.names).toDvarsOK none out2 mb'' hr2 s hheld
+  refine ⟨out, mb', r, _, m2, hr, hlook, hinc, hgc, R2, hmf, ?_, hexact, out2, mb'', r2, hr2, hlook2, ?_⟩
+  · intro α hα
+    rw [G.den (flip r s) hmf α]
+    exact hden α ((G.sub.valid α).mp hα)
+  · intro α hα
+    rw [hden2 α hα]
+    exact denN_held_signed ext mb mb' h B.bdd s hheld (B.held s.natAbs hheld) _
 
 /-- the hypotheses of the totality theorems are satisfiable by a non-trivial manager (the example
 manager of C06/C07, held node 4 = `a ∧ b`, one integer variable over the bits `b`, `a` in an
@@ -323,7 +513,7 @@ theorem C15_bddToMdd_partial (S : Int → MAsg → Bool) (L : Nat → Nat)
       · intro α _; rw [denM_one]; exact (hS1 α).symm
     · have : (x == 1) = false := by simpa using hx
       simp [List.lookup_cons, this] at hl
-  obtain ⟨hP', hinv, hext, hU⟩ := b2mLoop_partial S L hSneg rm btv P K hBdd ord _ _ mb out mb' hK hP
+  obtain ⟨hP', hinv, hext, hU, _⟩ := b2mLoop_partial S L hSneg rm btv P K hBdd ord _ _ mb out mb' hK hP
     (MInv.init dvars) h0 hr
   refine ⟨hP', hinv, hext.vars.symm, ?_⟩
   intro u r hl
@@ -396,10 +586,9 @@ theorem C15_reachable_canonical (dv : List MVar) (m : MddMgr) (ext : Nat → Nat
     (∀ a, MValid m.tbl a → denM m.tbl u a = denM m.tbl v a) ↔ u = v :=
   C15_canonical m h.inv.1 hpos u v hu hv
 
-/-- in every reachable state, `collect_garbage()` frees exactly the unreferenced nodes: a node
-remains (with its tuple) iff it is reachable along successor edges from a node the user holds;
-nothing is created; surviving references keep their meaning; the result is reachable again -/
-theorem C15_gc_exact (dv : List MVar) (m : MddMgr) (ext : Nat → Nat) (h : MReach dv m ext)
+/-- (conditional form, kept) in every reachable state, a `collect_garbage()` that returns frees
+exactly the unreferenced nodes -/
+theorem C15_gc_exact_ok (dv : List MVar) (m : MddMgr) (ext : Nat → Nat) (h : MReach dv m ext)
     (m' : MddMgr) (hr : mCollectGarbage none m = (.ok (), m')) :
     MReach dv m' ext ∧
     (∀ x n, m.tbl.node? x = some n → (m'.tbl.node? x = some n ↔ HeldReach m.tbl ext x)) ∧
@@ -409,6 +598,74 @@ theorem C15_gc_exact (dv : List MVar) (m : MddMgr) (ext : Nat → Nat) (h : MRea
   have G := mddGc_spec m ext hi hx none m' hr
   exact ⟨MReach.gc none m' h hr, fun x n hn => gc_exactly_reachable m ext hi hx m' hr x n hn,
     G.sub.nodes, G.den⟩
+
+/-- in every reachable state `collect_garbage()` RETURNS NORMALLY and frees exactly the
+unreferenced nodes: a node remains (with its tuple) iff it is reachable along successor edges from
+a node the user holds; nothing is created; surviving references keep their meaning; the result is
+reachable again -/
+theorem C15_gc_exact (dv : List MVar) (m : MddMgr) (ext : Nat → Nat) (h : MReach dv m ext) :
+    ∃ m', mCollectGarbage none m = (.ok (), m') ∧
+    MReach dv m' ext ∧
+    (∀ x n, m.tbl.node? x = some n → (m'.tbl.node? x = some n ↔ HeldReach m.tbl ext x)) ∧
+    (∀ x n, m'.tbl.node? x = some n → m.tbl.node? x = some n) ∧
+    (∀ u, m'.tbl.Mem u → ∀ a, denM m'.tbl u a = denM m.tbl u a) := by
+  obtain ⟨hi, hx, _⟩ := h.inv
+  obtain ⟨m', hr, _⟩ := mCollectGarbage_total m ext hi hx none
+    (gcRootList_mem m h.refKeys none (fun rs hrs => by cases hrs))
+  exact ⟨m', hr, C15_gc_exact_ok dv m ext h m' hr⟩
+
+/-- in every reachable state `collect_garbage(roots)` RETURNS NORMALLY for any list of references
+(of either sign) to nodes of the manager, with the guarantees of `C15_gc_ok` -/
+theorem C15_gc_roots_total (dv : List MVar) (m : MddMgr) (ext : Nat → Nat) (h : MReach dv m ext)
+    (rs : List Int) (hrs : ∀ r, r ∈ rs → m.tbl.Mem r) :
+    ∃ m', mCollectGarbage (some rs) m = (.ok (), m') ∧ MReach dv m' ext ∧
+      GcOK m ext false m' := by
+  obtain ⟨hi, hx, _⟩ := h.inv
+  obtain ⟨m', hr, G⟩ := mCollectGarbage_total m ext hi hx (some rs) hrs
+  exact ⟨m', hr, MReach.gc _ m' h hr, G⟩
+
+/-! #### the order of `unused.pop()`
+
+`unused` is a Python `set`, `unused.pop()` removes an arbitrary element; the model (and the
+correspondence check) pop in one fixed order.  `MGcAny roots m m'` is the relation "some run of
+`collect_garbage(roots)`, popping ANY element of the worklist each time, ends in `m'`". -/
+
+/-- the model's run is one of the runs -/
+theorem C15_gc_model_run (roots : Option (List Int)) (m m' : MddMgr)
+    (hr : mCollectGarbage roots m = (.ok (), m')) : MGcAny roots m m' :=
+  mCollectGarbage_any roots m m' hr
+
+/-- no run can get stuck: from a good worklist (distinct nodes with count zero — what the loop
+starts from and maintains) the iteration for ANY popped element raises nothing, leaves a good
+worklist and one node less (so every run ends, after at most `len(_succ)` iterations) -/
+theorem C15_gc_never_stuck (m : MddMgr) (ext : Nat → Nat) (hc : MInvCore m) (hx : MRefExact m ext)
+    (work : List Int) (hw : WorkOK m work) (u : Int) (hu : u ∈ work) :
+    ∃ work' m1, mGcStep u (work.erase u) m = (.ok work', m1) ∧
+      MInvCore m1 ∧ MRefExact m1 ext ∧ WorkOK m1 work' ∧
+      m1.tbl.succ.size + 1 = m.tbl.succ.size :=
+  mGcRun_progress m ext hc hx work hw u hu
+
+/-- every run, in any order, gives what `collect_garbage` promises; and without roots exactly the
+nodes reachable from a held node remain -/
+theorem C15_gc_anyOrder (m : MddMgr) (ext : Nat → Nat) (h : MInv m) (hx : MRefExact m ext)
+    (roots : Option (List Int)) (m' : MddMgr) (R : MGcAny roots m m') :
+    GcOK m ext roots.isNone m' ∧
+    (roots = none → ∀ x n, m.tbl.node? x = some n →
+      (m'.tbl.node? x = some n ↔ HeldReach m.tbl ext x)) := by
+  refine ⟨mGcAny_spec m ext h hx roots m' R, ?_⟩
+  intro hn x n hx'
+  subst hn
+  exact mGcAny_exactly_reachable m ext h hx m' R x n hx'
+
+/-- the result of `collect_garbage()` does not depend on the order: any two runs leave the same
+nodes (same tuples), the same counters on them, and the same meaning of every reference -/
+theorem C15_gc_order_independent (m : MddMgr) (ext : Nat → Nat) (h : MInv m) (hx : MRefExact m ext)
+    (m' m'' : MddMgr) (R' : MGcAny none m m') (R'' : MGcAny none m m'') :
+    (∀ x, m'.tbl.node? x = m''.tbl.node? x) ∧
+    (∀ u, m'.tbl.Mem u → m'.ref[u.natAbs]? = m''.ref[u.natAbs]?) ∧
+    (∀ u, m'.tbl.Mem u ↔ m''.tbl.Mem u) ∧
+    (∀ u, m'.tbl.Mem u → ∀ a, denM m'.tbl u a = denM m''.tbl u a) :=
+  mGcAny_deterministic m ext h hx m' m'' R' R''
 
 /-! ### the fuel of the model is an artifact, never observed -/
 
@@ -524,5 +781,126 @@ example : MReach dv s1.2 (fun _ => 0) ∧ mCollectGarbage none s1.2 = (.ok (), g
     MReach dv h1.2 (mExtInc (fun _ => 0) (-2)) ∧ mCollectGarbage none h1.2 = (.ok (), h2.2) ∧
     h2.2.tbl.node? 2 = some ⟨1, [1, -1]⟩ :=
   ⟨r1, eg1, by rfl, by rfl, by rfl, by rfl, by rfl, rh1, eh2, by rfl⟩
+
+open C15Ex in
+/-- the TOTAL forms apply (all hypotheses hold in the example states, no recorded schedule): hence
+`ite`, `apply`, `find_or_add` provably return there -/
+example : (∃ w m', mIte 3 (-4) (-2) s3.2 = (.ok w, m') ∧ MInv m') ∧
+    (∃ r m', mApply "xor" 3 (some (-4)) none s5.2 = (.ok r, m') ∧ MInv m') ∧
+    (∃ r m', mApply "ite" 3 (some (-4)) (some 2) s5.2 = (.ok r, m') ∧ MInv m') := by
+  refine ⟨?_, ?_, ?_⟩
+  · obtain ⟨w, m', hr, hi, _⟩ := C15_ite_total s3.2 r3.inv.1 (by rfl) 3 (-4) (-2)
+      (by decide) (by decide) (by decide)
+    exact ⟨w, m', hr, hi⟩
+  · obtain ⟨r, m', hr, hi, _⟩ := C15_apply_total s5.2 r5.inv.1 (by rfl) "xor" .xor (by decide)
+      ⟨by decide, by decide⟩ 3 (some (-4)) none
+      ⟨by decide, fun _ => ⟨rfl, rfl⟩, by decide⟩ (by decide)
+      (fun x hx => by cases hx; decide) (fun x hx => by cases hx)
+    exact ⟨r, m', hr, hi⟩
+  · obtain ⟨r, m', hr, hi, _⟩ := C15_apply_total s5.2 r5.inv.1 (by rfl) "ite" .ite (by decide)
+      ⟨by decide, by decide⟩ 3 (some (-4)) (some 2)
+      ⟨by decide, by decide, fun _ => ⟨rfl, rfl⟩⟩ (by decide)
+      (fun x hx => by cases hx; decide) (fun x hx => by cases hx; decide)
+    exact ⟨r, m', hr, hi⟩
+
+open C15Ex in
+/-- the total collection theorems apply: in the reachable state `s6` (node 3 held, nodes 2–6
+present) `collect_garbage()` and `collect_garbage([-4, 2])` provably return, and the full
+collection keeps exactly the nodes reachable from node 3 -/
+example : (∃ m', mCollectGarbage none s6.2 = (.ok (), m') ∧
+      ∀ x n, s6.2.tbl.node? x = some n →
+        (m'.tbl.node? x = some n ↔ HeldReach s6.2.tbl (mExtInc (fun _ => 0) 3) x)) ∧
+    (∃ m', mCollectGarbage (some [-4, 2]) s6.2 = (.ok (), m') ∧
+      m'.tbl.node? 3 = some ⟨0, [2, 1, -1]⟩) := by
+  refine ⟨?_, ?_⟩
+  · obtain ⟨m', hr, _, hex, _⟩ := C15_gc_exact dv s6.2 _ r6
+    exact ⟨m', hr, hex⟩
+  · obtain ⟨m', hr, _, G⟩ := C15_gc_roots_total dv s6.2 _ r6 [-4, 2] (by decide)
+    exact ⟨m', hr, G.held 3 _ (by rfl) (by decide)⟩
+
+/-! ### non-vacuity of the conversion theorems on a larger manager
+
+Four Boolean variables `a, b, c, d` (levels 0–3) and the held node 5 = `a ? (c ∧ d) : ¬(b ?
+(c ∧ d) : d)`, which depends on all four bits; two 2-bit integer variables with INTERLEAVED
+bits, `x` over `c` (least significant), `a` and `y` over `d`, `b`, the integer order (`y` above
+`x`) opposite to the listing.  The requested zone order `d, b, c, a` differs from the current
+order, so the conversion reorders.  (The manager is built with the operations of the reachability
+theorem of C06–C08, `reachable2_inv`, which yields the reordering invariant.) -/
+
+namespace C15Ex2
+
+def ops : List UOp2 :=
+  [ .base (.declare "a" none), .base (.declare "b" none),
+    .base (.declare "c" none), .base (.declare "d" none),
+    .base (.findOrAdd 3 (-1) 1),   -- 2 = d
+    .base (.findOrAdd 2 (-1) 2),   -- 3 = c ∧ d
+    .base (.findOrAdd 1 2 3),      -- 4 = b ? (c ∧ d) : d
+    .base (.findOrAdd 0 (-4) 3),   -- 5 = a ? (c ∧ d) : ¬4
+    .base (.incref 5) ]
+
+def st : St := run2 ops St.init
+def mb : Mgr := st.m
+def ex : Nat → Nat := st.ext
+
+theorem guarded : Ops2Guarded ops St.init := by decide
+
+theorem good : Good2 mb ex := reachable2_inv ops guarded
+
+theorem rinv : ReorderInv ex mb := by
+  have := good.reorderInv []
+  have hs : mb.sched = [] := good.sched
+  have e : ({ mb with sched := [] } : Mgr) = mb := by
+    cases hmb : mb; simp_all
+  rw [e] at this; exact this
+
+def dv : List MVar := [⟨"x", 1, 4, ["c", "a"]⟩, ⟨"y", 0, 4, ["d", "b"]⟩]
+
+theorem n5 : mb.tbl.node? 5 = some ⟨0, -4, 3⟩ := by decide
+theorem held5 : 0 < ex 5 := by decide
+theorem keys : mb.tbl.vars.keys = ["a", "b", "c", "d"] := by decide
+
+theorem dfull : DvarsFull mb.tbl dv := by
+  refine ⟨⟨by decide, ?_⟩, by decide, by decide, by decide⟩
+  rw [keys]; decide
+
+theorem predkeys : mb.pred.keys = [[0, -4, 3], [1, 2, 3], [2, -1, 2], [3, -1, 1]] := by decide
+
+theorem ks : KeysShaped mb := by
+  intro k u hku
+  have hmem : k ∈ mb.pred.keys := by
+    rw [Std.TreeMap.mem_keys, Std.TreeMap.mem_iff_isSome_getElem?, hku]; rfl
+  rw [predkeys] at hmem
+  simp only [List.mem_cons, List.not_mem_nil, or_false] at hmem
+  rcases hmem with rfl | rfl | rfl | rfl
+  · exact ⟨⟨0, -4, 3⟩, rfl⟩
+  · exact ⟨⟨1, 2, 3⟩, rfl⟩
+  · exact ⟨⟨2, -1, 2⟩, rfl⟩
+  · exact ⟨⟨3, -1, 1⟩, rfl⟩
+
+end C15Ex2
+
+open C15Ex2 in
+/-- all hypotheses of `C15_bddToMdd_total` / `C15_bddToMdd_held_total` hold there: the conversion
+provably returns, and the image of the held node 5 denotes its function on the encoded bits -/
+example : ∃ out mb', bddToMdd dv none mb = (.ok out, mb') ∧
+    ∃ r, out.umap.lookup 5 = some r ∧ ∀ α, MValid out.mdd.tbl α →
+      denM out.mdd.tbl r α = denN mb.tbl 5 (bitsOfInts dv α) := by
+  obtain ⟨out, mb', hr, _, _, hall⟩ :=
+    C15_bddToMdd_held_total ex mb rinv ks good.sched dv dfull
+  obtain ⟨r, h1, _, h3⟩ := hall 5 held5
+  exact ⟨out, mb', hr, r, h1, fun α hα => by have := h3 α hα; simpa [flip] using this⟩
+
+open C15Ex2 in
+/-- and all hypotheses of `C15_convert_incref_collect`: convert, `incref` the image, collect,
+convert again — every call provably returns and the images keep denoting node 5 -/
+example : ∃ out mb' r m1 m2, bddToMdd dv none mb = (.ok out, mb') ∧
+    out.umap.lookup 5 = some r ∧ mIncref r out.mdd = (.ok (), m1) ∧
+    mCollectGarbage none m1 = (.ok (), m2) ∧
+    (∀ α, MValid m2.tbl α → denM m2.tbl r α = denN mb.tbl 5 (bitsOfInts dv α)) ∧
+    ∃ out2 mb'' r2, bddToMdd dv none mb' = (.ok out2, mb'') ∧ out2.umap.lookup 5 = some r2 := by
+  obtain ⟨out, mb', r, m1, m2, h1, h2, h3, h4, _, _, h7, _, out2, mb'', r2, h9, h10, _⟩ :=
+    C15_convert_incref_collect ex mb rinv ks good.sched dv dfull 5 held5
+  exact ⟨out, mb', r, m1, m2, h1, h2, h3, h4,
+    fun α hα => by have := h7 α hα; simpa [flip] using this, out2, mb'', r2, h9, h10⟩
 
 end DD
